@@ -134,7 +134,8 @@ func Run(r *ev.Run) {
 			continue
 		}
 		r.Eval(string(stream), "base -> accepted")
-		flipAll := r.Thorough() || bi%4 == 0 || bi%4 == 3 && bi%3 == 0
+		flipAll := true // every single-bit flip on every base tuple (cheap enough for the quick tier too)
+		_ = bi
 		if flipAll {
 			for bit := 5 * 8; bit < len(stream)*8; bit++ {
 				mut := append([]byte{}, stream...)
